@@ -276,6 +276,20 @@ func c11Inner(stack string) string {
 // classify returns the parking class of a goroutine of this package, or "" if it is not parked.
 func (e *c11Env) classify(g c11G) string {
 	in := c11Inner(g.stack)
+	if g.state == "semacquire" {
+		// "semacquire" is the wait reason of sync.WaitGroup.Wait (up to go 1.23) and of sync.Mutex.Lock (old
+		// toolchains), but ALSO of a goroutine waiting for a runtime-internal semaphore - typically the GC's world
+		// semaphore, which this harness itself holds while it takes the dump: a goroutine that allocates inside
+		// Wait's poll loop was once taken for "parked at the barrier". Only the sync primitives are parking points.
+		switch {
+		case strings.Contains(g.stack, "sync.(*WaitGroup).Wait"):
+			g.state = "sync.WaitGroup.Wait"
+		case strings.Contains(g.stack, "sync.(*Mutex).Lock") || strings.Contains(g.stack, "sync.(*Mutex).lockSlow"):
+			g.state = "sync.Mutex.Lock"
+		default:
+			return "" // transient
+		}
+	}
 	switch g.state {
 	case "chan receive":
 		switch {
@@ -301,7 +315,7 @@ func (e *c11Env) classify(g c11G) string {
 		if strings.HasPrefix(in, "(*PeriodicalExecutor).backgroundFlush.func1") {
 			return "select"
 		}
-	case "sync.Mutex.Lock", "semacquire", "sync.WaitGroup.Wait":
+	case "sync.Mutex.Lock", "sync.WaitGroup.Wait":
 		switch {
 		case strings.HasPrefix(in, "(*PeriodicalExecutor).enterExecution"):
 			return "enter"
